@@ -443,3 +443,161 @@ func wireCodes(p *core.Prog, r *core.Report, rule string, groups ...string) {
 			"the wire value equals the specified code point", fmt.Sprintf("constant is %#02x (resolved=%v), the protocol specifies %#02x: the bytes on the wire mean something else to every other implementation", got, ok, spec.WireCodes[n]))
 	}
 }
+
+// checksumSizes: the number of checksum bytes a frame of each checksum type
+// carries (protocol: none 0, crc32 4, farmhash 4, crc32c 4). The lazy relay
+// parser and both codecs step over the checksum by this size whether or not
+// this library can compute the type.
+func checksumSizes(p *core.Prog, r *core.Report, rule string) {
+	f := mustFunc(p, r, "", "ChecksumType", "ChecksumSize")
+	d := p.NewDomain("", "ChecksumType")
+	if f == nil || d == nil {
+		return
+	}
+	cells := []core.TableCell{{Name: "type", D: d, Match: func(v ssa.Value) bool { return v == ssa.Value(f.Params[0]) }}}
+	rows, err := core.DecisionTable(f, cells, desc)
+	if err != nil {
+		r.Undecided(rule, fname(f), "checksum size table", p.Pos(f.Pos()), err.Error())
+		return
+	}
+	table := map[string]string{}
+	for _, row := range rows {
+		for b := 0; b < d.N(); b++ {
+			if row.Sets[0]&(1<<uint(b)) != 0 && b%2 == 1 {
+				lo, _, _ := d.Range(b)
+				table[d.Names[lo]] = row.Result
+			}
+		}
+	}
+	want := map[string]string{"ChecksumTypeNone": "0", "ChecksumTypeCrc32": "4", "ChecksumTypeFarmhash": "4", "ChecksumTypeCrc32C": "4"}
+	var names []string
+	for n := range want {
+		names = append(names, n)
+	}
+	sort.Strings(names)
+	for _, n := range names {
+		r.Check(table[n] == want[n], rule, fname(f), "ChecksumSize("+n+") = "+want[n], p.Pos(f.Pos()), "as specified",
+			fmt.Sprintf("ChecksumSize(%s) is %q, the protocol says %s: every parser that steps over the checksum of such a frame reads the following fields from the wrong offset", n, table[n], want[n]))
+	}
+}
+
+// readFieldsAreAssigned: a struct field of the root package that some code
+// reads is assigned by some code (a store, a composite-literal entry, or its
+// address handed to something that may fill it). A field that is only ever
+// read is the zero value for ever: what used to update it has been dropped
+// (an error frame without the call's tracing, a state nobody advances).
+// reviewed lists fields that are legitimately never assigned.
+var neverAssignedReviewed = map[string]string{
+	"Peer.onUpdate":      "test-only hook, assigned by SetOnUpdate in a _test file",
+	"callReqContinue.id": "continuation messages are created with new(): the frame header id is stamped from the exchange in reqResWriter.newFragment, the message's own id is not used on the write path",
+	"callRes.id":         "as callReqContinue.id: response frames take their id from the exchange",
+	"callResContinue.id": "as callReqContinue.id",
+}
+
+func readFieldsAreAssigned(p *core.Prog, r *core.Report, rule string, keep func(owner string) bool) {
+	type use struct {
+		reads, writes int
+		firstRead     ssa.Instruction
+		fn            *ssa.Function
+	}
+	uses := map[*types.Var]*use{}
+	owners := map[*types.Var]string{}
+	get := func(v *types.Var) *use {
+		if uses[v] == nil {
+			uses[v] = &use{}
+		}
+		return uses[v]
+	}
+	for _, f := range p.SrcFuncs {
+		if pkgOf(f) != core.Root {
+			continue
+		}
+		f := f
+		core.EachInstr(f, func(i ssa.Instruction) {
+			switch x := i.(type) {
+			case *ssa.Field:
+				st, ok := core.Deref(x.X.Type()).Underlying().(*types.Struct)
+				if !ok {
+					return
+				}
+				fld := st.Field(x.Field)
+				owners[fld] = shortTypeName(x.X.Type())
+				u := get(fld)
+				u.reads++
+				if u.firstRead == nil {
+					u.firstRead, u.fn = i, f
+				}
+			case *ssa.FieldAddr:
+				st, ok := core.Deref(x.X.Type()).Underlying().(*types.Struct)
+				if !ok {
+					return
+				}
+				fld := st.Field(x.Field)
+				owners[fld] = shortTypeName(x.X.Type())
+				u := get(fld)
+				refs := x.Referrers()
+				if refs == nil {
+					return
+				}
+				for _, ref := range *refs {
+					switch y := ref.(type) {
+					case *ssa.UnOp:
+						u.reads++
+						if u.firstRead == nil {
+							u.firstRead, u.fn = i, f
+						}
+					case *ssa.Store:
+						if y.Addr == ssa.Value(x) {
+							u.writes++
+						} else {
+							u.writes++ // address stored: may be filled elsewhere
+						}
+					case *ssa.DebugRef:
+					case *ssa.FieldAddr, *ssa.IndexAddr, *ssa.Slice:
+						// a nested field / element / slice of it: judged at the nested level; a slice may be filled
+						u.writes++
+					default:
+						u.writes++ // address escapes (call argument, closure): may be filled
+					}
+				}
+			}
+		})
+	}
+	var flds []*types.Var
+	for fld := range uses {
+		flds = append(flds, fld)
+	}
+	sort.Slice(flds, func(i, j int) bool {
+		a, b := owners[flds[i]]+"."+flds[i].Name(), owners[flds[j]]+"."+flds[j].Name()
+		return a < b
+	})
+	n := 0
+	for _, fld := range flds {
+		u := uses[fld]
+		owner := owners[fld]
+		if fld.Pkg() == nil || fld.Pkg().Path() != core.Root || owner == "" || strings.Contains(owner, ".") || u.reads == 0 {
+			continue
+		}
+		if keep != nil && !keep(owner) {
+			continue
+		}
+		if fld.Exported() {
+			continue // set by users of the package
+		}
+		key := owner + "." + fld.Name()
+		n++
+		if u.writes > 0 {
+			r.OkTrivial(rule, "struct "+owner, "field "+fld.Name()+" that is read is also assigned", "-", fmt.Sprintf("%d assignments", u.writes))
+			continue
+		}
+		if why, ok := neverAssignedReviewed[key]; ok {
+			r.Ok(rule, "struct "+owner, "field "+fld.Name()+" that is read is also assigned", "-", "reviewed: "+why)
+			continue
+		}
+		r.Fail(rule, "struct "+owner, "field "+fld.Name()+" that is read is also assigned", p.Pos(u.firstRead.Pos()),
+			key+" is read (first in "+fname(u.fn)+") but nothing assigns it any more: it is the zero value for ever")
+	}
+	if n == 0 {
+		r.Errorf("no struct field reads found for %s", rule)
+	}
+}
